@@ -6,7 +6,7 @@ from props.C05 import finish_obligations
 from vlib import run as vrun, build, lean
 
 CANDIDATE_MODS = ["PrimitivModel.Props.C01.Sweep", "PrimitivModel.Props.C01.Move", "PrimitivModel.Props.C01.Arith",
-                  "PrimitivModel.Props.C01.Rules", "PrimitivModel.Props.C01.Chain"]
+                  "PrimitivModel.Props.C01.Rules", "PrimitivModel.Props.C01.Chain", "PrimitivModel.Props.C01.ChainOps"]
 
 
 def existing(mods):
@@ -69,13 +69,28 @@ def run(chk):
             lib.run_family(chk, "C01")
     finish_obligations(chk)
     # The chain rule over the DAG is proved (Props/C01/Chain.lean: Graph.tangent_isDeriv, Graph.backward_is_gradient,
-    # Graph.backward_is_gradient_of_forward) in curve / directional-derivative form over the reals.  What remains:
+    # Graph.backward_is_gradient_of_forward) in curve / directional-derivative form over the reals, and the two per-operator
+    # hypotheses (CurveLawAt, AdjointLawAt) are proved for the operator semantics of Props/C01/ChainOps.lean.  What remains:
     chk.stated_not_proved += [
-        "Graph.backward_is_gradient takes the per-operator curve law (CurveLawAt) and adjoint law (AdjointLawAt) as hypotheses; "
-        "they are instantiated as OpSem semantics only for elementwise unary operators built from a scalar pair with "
-        "IsBackwardOf (unary_curveLaw/unary_adjointLaw; shown for the generated tanh kernels, tanh_laws) and for the elementwise "
-        "product (mul_curveLaw/mul_adjointLaw); the other operator classes are covered by the kernel-level adjoint and derivative "
-        "theorems (Props/C01/Arith.lean, Move.lean) but not yet packaged as OpSem instances of the two laws",
+        "Graph.backward_is_gradient takes the per-operator curve law (CurveLawAt) and adjoint law (AdjointLawAt) as hypotheses. "
+        "INSTANTIATED as OpSem (Vec R) semantics with both laws (Props/C01/ChainOps.lean): every elementwise unary operator of a "
+        "scalar pair with IsBackwardOf (unary_laws), with one instance per generated kernel pair, Naive and Eigen, on its smooth "
+        "domain: tanh, sigmoid, softplus, exp, sin, cos (everywhere), log, abs, k/x, prelu, elu, pown (x != 0), sqrt, x^k (x > 0), "
+        "tan (cos x != 0), x+k, x-k, k-x, x*k, x/k, k^x (k > 0); elementwise binary add, subtract, multiply, divide (b != 0), "
+        "pow (a > 0) on operands of the same size (generated forward formula, backward formula transcribed from the kernel model "
+        "addBw..powBw at equal strides); every linear operator given by a finite matrix with any number of arguments and return "
+        "values (lin_curveLaw/lin_adjointLaw: covers copy, reshape, flatten, negate, slice, split, concat, pick with fixed ids, "
+        "broadcast, sum, mean, flip, permute_dims, transpose, batch::sum/concat/slice/split/pick, add/subtract with batch "
+        "broadcasting); every bilinear operator (bilin_curveLaw/bilin_adjointLaw: matmul, conv2d, multiply with batch broadcasting, "
+        "multiplication by a random mask as in dropout); constant operators without arguments (const_laws: Input, Constant, "
+        "zeros, ones, identity). "
+        "NOT INSTANTIATED: operators whose Jacobian depends on an argmax (max, min, max_pool2d: piecewise linear, not "
+        "differentiable at ties, see Arith.max_not_differentiable_at_tie), logsumexp / softmax / log_softmax / "
+        "softmax_cross_entropy / sparse_softmax_cross_entropy as single operators, divide and pow with batch broadcasting, "
+        "pown at x = 0 (known finding pown-bw-zero). "
+        "NOT PROVED: that the literal move/matmul/conv kernels of Model/KernelsMove.lean and Model/KernelsArith.lean are "
+        "linOp ns ms A / bilinOp na nb m B for a specific matrix (their kernel-level adjoint theorems in Props/C01/Move.lean and "
+        "Arith.lean stand beside the generic laws; sumMat, sliceMat, bcastMat, matmulCoef are given with sanity examples only)",
         "Frechet (norm) formulation not stated: the derivative of the summed target is stated along every differentiable curve of "
         "parameter values (HasDerivAt in the curve parameter, all directions), which needs no norm on tensors"]
     chk.trusted += ["float32 rounding of gradients is outside every theorem (theorems are over a commutative ring / the reals)",
